@@ -1,5 +1,5 @@
 //! Keyword-region programs: every sequence of <= n segments from
-//! { `begin_keywords "v" (3 versions), `end_keywords, 4 probe modules }.
+//! { `begin_keywords "v" (3 versions), `end_keywords, 4 probe modules, a `define }.
 //! Unbalanced and unclosed regions are members of the space on purpose.
 
 use crate::core::space::Space;
@@ -9,6 +9,8 @@ pub enum Seg {
     Begin(&'static str),
     End,
     Mod(usize),
+    /// a directive that survives preprocessing and is lexed with the directive-name keyword set
+    Define,
 }
 
 pub const VERSIONS: [&str; 3] = ["1364-2001", "1800-2005", "1800-2017"];
@@ -22,6 +24,7 @@ pub fn alphabet() -> Vec<Seg> {
     for i in 0..BODIES.len() {
         v.push(Seg::Mod(i));
     }
+    v.push(Seg::Define);
     v
 }
 
@@ -36,6 +39,7 @@ pub fn render(p: &[Seg]) -> String {
             Seg::Begin(v) => s.push_str(&format!("`begin_keywords \"{}\"\n", v)),
             Seg::End => s.push_str("`end_keywords\n"),
             Seg::Mod(b) => s.push_str(&format!("module m{}; {} endmodule\n", k, BODIES[*b].0)),
+            Seg::Define => s.push_str(&format!("`define D{} {}\n", k, k)),
         }
     }
     s
@@ -53,6 +57,7 @@ pub fn versions_in_force(p: &[Seg]) -> Option<Vec<(usize, Option<&'static str>)>
                 stack.pop()?;
             }
             Seg::Mod(_) => out.push((k, stack.last().copied())),
+            Seg::Define => {}
         }
     }
     Some(out)
